@@ -80,7 +80,8 @@ def rule_C17(ctx, rule="C17-deleg"):
     impls = [i for i in F.impls if ("LeanString" == i["self"] or "LeanString" in i["trait_args"]) and not i["self"].startswith("errors::")]
     seen = {}
     eq_family = {i["items"]["eq"] for i in impls if i["trait"] == "core::cmp::PartialEq" and "eq" in i["items"]}
-    nolt = lambda ty: re.sub(r"&'(?!static\b)\w+ ", "&", ty)
+    # lifetime names carry no meaning here: `&'a str` is `&str`, `Cow<'a, str>` is `Cow<'_, str>`
+    nolt = lambda ty: re.sub(r"<'(?!static\b)\w+,", "<'_,", re.sub(r"&'(?!static\b)\w+ ", "&", ty))
     for i in impls:
         tr, self_ty, targs = i["trait"], nolt(i["self"]), [nolt(x) for x in i["trait_args"]]
         key = (tr, self_ty, tuple(targs))
@@ -259,6 +260,18 @@ def rule_C19(ctx, rule="C19-deleg"):
             items = i["items"]
             for m in ("visit_str", "visit_borrowed_str", "visit_bytes", "visit_borrowed_bytes"):
                 ctx.ob(rule, i["self"], "has:" + m, m in items, how="visitor implements " + m, detail="visitor lacks %s: that input kind is rejected or routed through the default" % m)
+            # ... and accepts nothing else: String's own visitor takes strings and byte strings only (a
+            # `visit_seq` / `visit_char` / `visit_u64` makes LeanString deserialize from inputs String
+            # rejects, through decoding code of its own); visit_string / visit_byte_buf may be spelled out
+            # when they forward to the borrowed forms
+            allowed = {"Value", "expecting", "visit_str", "visit_borrowed_str", "visit_bytes", "visit_borrowed_bytes", "visit_string", "visit_byte_buf"}
+            extra = sorted(m for m in items if m not in allowed)
+            ctx.ob(rule, i["self"], "no-other-input-kinds", not extra, how="visitor accepts strings and byte strings only (as String's does)", detail="visitor also implements %s: inputs String's Deserialize rejects are decoded by the crate's own code" % extra)
+            for m, to in (("visit_string", "visit_str"), ("visit_byte_buf", "visit_bytes")):
+                if m in items and F.bodies.get(items[m]) is not None:
+                    bm = F.bodies[items[m]]
+                    cs = [callee_name(t) for _, t in bm.calls() if t.get("local_key") or "visit_" in callee_name(t)]
+                    ctx.ob(rule, bm.path, m, to in items and items[to] in cs, how="forwards to %s" % to, detail="%s does not forward to %s (calls %s)" % (m, to, cs))
             def forwards(b, to):
                 """`visit_borrowed_x(self, v) = self.visit_x(v)`: judged at visit_x"""
                 ds_ = ret_defs(b)
@@ -639,3 +652,33 @@ def rule_presize(ctx, rule="C09-presize"):
             ctx.ob(rule, fn, "presize=len(input):" + st.label(), a == "core::slice::<impl [T]>::len(p1)", line=st.line, how="pre-sized with buf.len()",
                    detail="%s pre-sizes its result with %s: only the number of input units is known not to exceed the text's length; a larger estimate allocates for texts that fit inline" % (fn, a))
     ctx.need(rule, "crate", "presizing-sites", n >= 2, "only %d pre-sizing sites in the decoding constructors" % n, how="%d pre-sizing sites" % n)
+
+
+def rule_operator_appends(ctx, rule="C11-ops"):
+    """`s + rhs` and `s += rhs` are `s.push_str(rhs)` on the left operand: every path appends to it
+    through the append operations (or a sibling operator impl), nothing else of the crate is called
+    (no rebuilt exact-size result that throws the reserved capacity away), and `add` returns it"""
+    from guards import must_pass_call
+    import r_retain
+    F = ctx.F
+    base = ("LeanString::push_str", "LeanString::try_push_str", "LeanString::push", "LeanString::try_push")
+    ops = {i["items"][m] for i in F.impls if i["self"] == "LeanString" and i["trait"] in ("core::ops::arith::Add", "core::ops::arith::AddAssign") for m in i["items"] if m in ("add", "add_assign")}
+    n = 0
+    for path in sorted(ops):
+        b = F.bodies.get(path)
+        if b is None:
+            continue
+        n += 1
+        allowed = set(base) | ops | set(GLUE_CALLS)
+        import r_api
+        uw, panic_fn = r_api.find_unwrap_helper(F)
+        allowed |= {x for x in (uw, panic_fn) if x}
+        calls = [callee_name(t) for _, _, t in inlined_calls(b) if t.get("local_key") or callee_name(t).startswith("LeanString::")]
+        extra = sorted({c for c in calls if c not in allowed})
+        ok = must_pass_call(b, set(base) | (ops - {path})) and not extra
+        if ok and path.endswith("::add"):
+            sib = tuple(o for o in ops if o != path and o.endswith("::add"))
+            ok = all(d == "p1" or d.startswith("mem:") or any(d.startswith(o + "(p1, ") for o in sib) for d in ret_defs(b))
+        ctx.ob(rule, path, "appends-to-left-operand", ok, how="push_str on the left operand on every path, nothing else",
+               detail="%s does not simply append to its left operand: calls %s%s" % (path, sorted(set(calls)), ("; other operations: %s" % extra) if extra else ""))
+    ctx.need(rule, "crate", "operator-impls", n >= 2, "only %d Add / AddAssign impls for LeanString" % n, how="%d operator impls" % n)
